@@ -16,6 +16,10 @@ import (
 var currentFile string
 var configPath string
 
+// per analysed file, in analysis order: its path and the lines of its unused imports
+var analysedFiles []string
+var unusedImportLines [][]int
+
 type RemoveUnusedImportApp struct {
 }
 
@@ -29,6 +33,8 @@ func (j *RemoveUnusedImportApp) Analysis() []models2.JFullIdentifier {
 	files := cocafile.GetJavaFiles(configPath)
 
 	var nodes []models2.JFullIdentifier = nil
+	analysedFiles = nil
+	unusedImportLines = nil
 	for index := range files {
 		file := files[index]
 
@@ -46,16 +52,18 @@ func (j *RemoveUnusedImportApp) Analysis() []models2.JFullIdentifier {
 		antlr.NewParseTreeWalker().Walk(listener, context)
 
 		nodes = append(nodes, listener.GetNodeInfo())
+		// the import and reference tables behind a node are shared and only valid until the next file is parsed
+		analysedFiles = append(analysedFiles, currentFile)
+		unusedImportLines = append(unusedImportLines, BuildErrorLines(listener.GetNodeInfo()))
 	}
 
 	return nodes
 }
 
 func (j *RemoveUnusedImportApp) Refactoring(resultNodes []models2.JFullIdentifier) {
-	for _, node := range resultNodes {
-		if node.Name != "" {
-			errorLines := BuildErrorLines(node)
-			removeImportByLines(currentFile, errorLines)
+	for index, node := range resultNodes {
+		if node.Name != "" && index < len(analysedFiles) {
+			removeImportByLines(analysedFiles[index], unusedImportLines[index])
 		}
 	}
 }
